@@ -8,7 +8,10 @@ Per generated module set (check/props/schema_gen.py, plus the feature schemas be
           submodule that names its tree by a prefix, also started at nodes inside the trees with the prefix of the
           module whose text wrote the start node; the unprefixed absolute spelling from nodes of the tree and from
           the root entries of its submodules; bad-step variants; relative paths with several "..";
-          rpc/action input and output created on demand, looked up again, and a step below the fresh node), are
+          one absolute path string from start nodes of one tree written in different (sub)modules that bind its
+          prefix differently; '.' and '..' steps after existing and after missing steps, above the root; rpc/action
+          input and output created on demand -- also by 'input/..' --, looked up again, and a step below the fresh
+          node), are
           evaluated by Entry.Find (harness/go/c17.go `find17`, position recovered through Parent pointers) and by
           the extracted Schema.Find (harness/ml/cmd_c17.ml): found/not found, position, name and kind of the
           result must agree, and so must the two forests after the queries (frame of the on-demand creation).
@@ -64,6 +67,34 @@ def feature_schemas():
                                                           ("rpc", False, "op", [("uses", "g:gr")], [("uses", "g:gr")])],
            augments=[("/u:top/u:gc", [("uses", "g:gr")])])
     out.append([g, u])
+    # one prefix string bound to different modules by the (sub)modules whose nodes share one tree: module t says x = x1,
+    # its submodule ts says x = x2, the augmenting module a says x = x3, the grouping's module gg says x = x4
+    xs = [_m("x%d" % i, "x%d" % i, "urn:x%d" % i, body=[("container", "top", None, [_lf("foo"), _lf("only%d" % i)])]) for i in (1, 2, 3, 4)]
+    gg = _m("gg", "gg", "urn:gg", imports=[("x", "x4")], body=[("grouping", 7, "grp", [("container", "fromg", None, [_lf("gl")])])])
+    t = _m("t", "t", "urn:t", imports=[("x", "x1"), ("gg", "gg")], includes=["ts"],
+           body=[("container", "c", None, [_lf("n"), ("uses", "gg:grp")]), ("rpc", False, "op", [_lf("i")], None)])
+    ts = _m("ts", "t", "", belongs="t", imports=[("x", "x2")], body=[("container", "fromsub", None, [_lf("l")])],
+            augments=[("/t:c", [_lf("subg")])])
+    a2 = _m("a", "a", "urn:a", imports=[("t", "t"), ("x", "x3")], augments=[("/t:c", [_lf("g"), ("container", "gc", None, [_lf("gl2")])]),
+                                                                         ("/t:op/t:input", [_lf("gi")])])
+    out.append(xs + [gg, t, ts, a2])
+    # directories WITHOUT children inside a grouping used twice (and inside the bodies of two augments that use one
+    # grouping), one copy filled later by an augment: the other copy must stay empty
+    ge = ("grouping", 9, "ge", [("container", "box", None, []), ("list", "li", None, None, None, None, []),
+                                ("choice", "how", None, None, None, [("case", "plain", [])]),
+                                ("rpc", True, "reset", [], []), _lf("id")])
+    for tgt in ("one", "two"):
+        oth = "two" if tgt == "one" else "one"
+        m = _m("m", "m", "urn:m", body=[ge, ("container", "one", None, [("uses", "ge")]), ("container", "two", None, [("uses", "ge")]),
+                                       ("notification", "nt", [])],
+               augments=[("/m:%s/m:box" % tgt, [_lf("x")]), ("/m:%s/m:li" % tgt, [_lf("y")]), ("/m:%s/m:how/m:plain" % tgt, [_lf("p")]),
+                         ("/m:%s/m:reset/m:input" % tgt, [_lf("force")]), ("/m:%s/m:reset/m:output" % oth, [_lf("res")]),
+                         ("/m:%s/m:how" % oth, [_lf("sh")])])
+        out.append([m])
+    h = _m("h", "h", "urn:h", body=[("grouping", 11, "gh", [("container", "slot", None, [])]), ("container", "p", None, []),
+                                   ("container", "q", None, [])],
+           augments=[("/h:p", [("uses", "gh")]), ("/h:q", [("uses", "gh")]), ("/h:q/h:slot", [_lf("late")])])
+    out.append([h])
     return out
 
 
@@ -109,6 +140,53 @@ def prefixes_for(schema, frm, owner):
         if mn in byname and own(byname[mn]) == owner:
             out.append(p)
     return out
+
+
+def resolve_abs(schema, mods, ctxname, startmod, path):
+    """what an absolute path denotes for a start node written in (sub)module ctxname of tree startmod, read off the
+    dump: expected result string, "-" for nothing, None when the answer would need an input/output created on demand"""
+    byname = {m["name"]: m for m in schema}
+    own = lambda m: m["name"] if m["belongs"] is None else m["belongs"]
+    parts = path.split("/")[1:]
+    pfx = parts[0].split(":", 1)[0] if ":" in parts[0] else ""
+    ctx = byname.get(ctxname)
+    if ctx is None:
+        return None
+    if pfx == "":
+        tree = own(byname[startmod]) if startmod in byname else startmod
+    elif pfx == ctx["prefix"]:
+        tree = own(ctx)
+    else:
+        tree = None
+        for p, mn in ctx["imports"]:
+            if p == pfx:
+                tree = own(byname[mn]) if mn in byname else None
+                break
+        if tree is None:
+            return "-"
+    if tree not in mods:
+        return "-"
+    node, st = mods[tree]["tree"], []
+    for part in parts:
+        name = part.split(":", 1)[1] if ":" in part else part
+        if part == ".":
+            continue
+        if part == "..":
+            return None
+        if node.get("hasrpc"):
+            if name not in ("input", "output"):
+                return "-"
+            if not node.get(name):
+                return None
+            node, st = node[name], st + [("I",) if name == "input" else ("O",)]
+            continue
+        if name == ".":
+            continue
+        nxt = [c for c in node.get("children") or [] if c["name"] == name]
+        if name in ("", "..") or not nxt:
+            return "-"
+        node, st = nxt[0], st + [("C", name)]
+    return expect(tree, tuple(st), node)
 
 
 def queries_for(schema, dump, rnd, budget):
@@ -178,6 +256,7 @@ def queries_for(schema, dump, rnd, budget):
         walk(mods[mn]["tree"], [], ns)
         allnodes += [(mn, st, nd) for st, nd in ns]
     targets = [x for x in allnodes if x[1]]
+    index_all = {(mn, st): nd for mn, st, nd in allnodes}
     for mn, st, nd in rnd.sample(allnodes, min(len(allnodes), 40)):
         ctxname = nd.get("src", "").split(".yang")[0]
         if ctxname not in byname or not targets:
@@ -187,15 +266,86 @@ def queries_for(schema, dump, rnd, budget):
                 parts = [pfx + ":" + step_name(x) for x in tst]
                 qs.append(dict(kind="abs-inside", go=(mn, st), ml=(mn, st), path="/" + "/".join(parts),
                                want=expect(tmn, tst, tnd), ctx=ctxname))
+    special = []
+
+    def sq(kind, start, path, want, ctx=None):
+        special.append(dict(kind=kind, go=start, ml=start, path=path, want=want, ctx=ctx))
+    # (d) ONE absolute path string looked up from several start nodes of one tree that were written in different
+    # (sub)modules: each resolves the first prefix through its own module's imports, whatever was looked up before
+    strings = [x["path"] for x in qs if x["kind"] == "abs-inside"]
+    bytree = {}
+    for mn, st, nd in allnodes:
+        cx = nd.get("src", "").split(".yang")[0]
+        if cx in byname:
+            bytree.setdefault(mn, {}).setdefault(cx, []).append(st)
+    for mn in sorted(bytree):
+        ctxs = sorted(bytree[mn])
+        if len(ctxs) < 2:
+            continue
+        cand = sorted(set(strings))
+        rnd.shuffle(cand)
+        # prefixes that at least two of the tree's (sub)modules know
+        pf = {}
+        for cx in ctxs:
+            for p in [byname[cx]["prefix"]] + [p for p, _ in byname[cx]["imports"]]:
+                pf.setdefault(p, set()).add(cx)
+        shared = [p for p in sorted(pf) if len(pf[p]) > 1]
+        for tmn, tst, tnd in rnd.sample(targets, min(len(targets), 12)) if shared else []:
+            p = rnd.choice(shared)
+            cand.insert(0, "/" + "/".join(p + ":" + step_name(x) for x in tst))
+        for path in cand[:14]:
+            order = [(cx, rnd.choice(bytree[mn][cx])) for cx in ctxs]
+            rnd.shuffle(order)
+            order = order + order[:1]                   # and the first one once more
+            ans = [(cx, st, resolve_abs(schema, mods, cx, mn, path)) for cx, st in order]
+            if any(w is None for _, _, w in ans) or all(w == "-" for _, _, w in ans):
+                continue
+            ans.sort(key=lambda x: x[2] == "-")          # successful lookups first
+            for cx, st, w in ans:
+                sq("same-string", (mn, st), path, w, cx)
+    # (f) '.' and '..' are steps, not text: 'x/..' needs x to exist
+    for mn in sorted(mods):
+        nodes = []
+        walk(mods[mn]["tree"], [], nodes)
+        pfx = byname[mn]["prefix"]
+        for st, nd in rnd.sample(nodes, min(len(nodes), 25)):
+            if not st:
+                continue
+            parts = [pfx + ":" + step_name(x) for x in st]
+            i = rnd.randrange(len(parts) + 1)
+            root = (mn, ())
+            sq("dd-missing", root, "/" + "/".join(parts[:i] + [pfx + ":" + BAD, ".."] + parts[i:]), "-")
+            if i < len(parts):
+                sq("dd-existing", root, "/" + "/".join(parts[:i] + [parts[i], ".."] + parts[i:]), expect(mn, st, nd))
+            if i >= 1:
+                sq("dot", root, "/" + "/".join(parts[:i] + ["."] + parts[i:]), expect(mn, st, nd))
+            sq("dd-top", root, "/" + "/".join(parts[:1] + ["..", ".."] + parts), "-")
+            # relative, from the node itself
+            kids = [c["name"] for c in nd.get("children") or []]
+            sq("dd-missing", (mn, st), BAD + "/..", "-")
+            sq("dd-missing", (mn, st), "../" + BAD + "/../" + step_name(st[-1]), "-")
+            sq("dd-root", (mn, st), "/".join([".."] * (len(st) + 1)), "-")
+            sq("dd-root", (mn, st), "/".join([".."] * (len(st) + 1) + [step_name(st[0])]), "-")
+            sq("dd-existing", (mn, st), "./../" + step_name(st[-1]) + "/.", expect(mn, st, nd))
+            if kids and not nd.get("hasrpc"):
+                k = rnd.choice(kids)
+                sq("dd-existing", (mn, st), k + "/../" + k + "/..", expect(mn, st, nd))
+                sq("dd-missing", (mn, st), k + "/" + BAD + "/../..", "-")
     if len(qs) > budget:
         keep = sorted(rnd.sample(range(len(qs)), budget))
         qs = [qs[i] for i in keep]
+    qs += special
     for mn, st, io, tag in lazy:
         frm = byname[mn]
         pfx = frm["prefix"]
         parts = [pfx + ":" + step_name(s) for s in st] + [pfx + ":" + io]
         new = st + ((tag,),)
         want = "%s:%s:%s" % (show_pos(mn, new), sg.hx(io), "Input" if io == "input" else "Output")
+        if rnd.random() < 0.4:
+            # stepping into the missing input and straight out again: the rpc itself, and the input exists afterwards
+            # (the forests are compared after the queries)
+            q("lazy-dotdot", (mn, ()), (mn, ()), "/" + "/".join(parts + [".."]), expect(mn, st, dict(index_all[(mn, st)])))
+            continue
         q("lazy", (mn, ()), (mn, ()), "/" + "/".join(parts), want)
         q("lazy-below", (mn, ()), (mn, ()), "/" + "/".join(parts + [pfx + ":" + BAD]), "-")
         q("lazy-again", (mn, st), (mn, st), io, want)
